@@ -808,3 +808,15 @@ impl<Err, O: Observer<usize, Err>> Observer<usize, Err> for SplitDecision<O> {
   }
   fn is_finished(&self) -> bool { self.state.rc_deref().as_ref().map_or(true, |s| s.0.is_finished()) }
 }
+
+// ---------------------------------------------------------------- C07.T5
+pub struct ClosesSharedMulti<O> { observer: MutRc<Option<O>>, subscription: MultiSubscription<'static> }
+impl<Item, Err, O: Observer<Item, Err>> Observer<Item, Err> for ClosesSharedMulti<O> {
+  fn next(&mut self, value: Item) { self.observer.next(value) }
+  fn error(self, err: Err) {
+    self.subscription.clone().unsubscribe();
+    self.observer.error(err)
+  }
+  fn complete(self) { self.observer.complete() }
+  fn is_finished(&self) -> bool { self.observer.is_finished() }
+}
